@@ -8,7 +8,10 @@ import (
 	"sync"
 
 	"github.com/free5gc/chf/cdr/cdrFile"
+	"github.com/free5gc/chf/internal/abmf"
+	"github.com/free5gc/chf/internal/rating"
 	chf_context "github.com/free5gc/chf/internal/context"
+	"github.com/free5gc/openapi/models"
 )
 
 func verif_forall[T any](f func(T) bool) bool { return true }
@@ -22,6 +25,7 @@ func verif_held(mu *sync.Mutex) bool { return true }
 
 var _ = chf_context.GetSelf
 var _ = cdrFile.SpecFileOK
+var _, _ = abmf.GhostRequests, rating.GhostRequests
 
 // ---- CDR life cycle (C02, C11) ------------------------------------------------------------
 
@@ -75,3 +79,39 @@ var _ = cdrFile.SpecFileOK
 //@   loop 0: invariant cdrfile.Hdr.FileLength == uint32(52+cdrFile.SpecRecsLen(cdrfile.CdrList, ITER))
 //@   assume "cdrfile.Encoding(": len(records) < 1<<32 && forall n int :: 0 <= n && n <= len(cdrfile.CdrList) ==> 0 <= cdrFile.SpecRecsLen(cdrfile.CdrList, n) && cdrFile.SpecRecsLen(cdrfile.CdrList, n) < 1<<32-52
 //@   assert "cdrfile.Encoding(": cdrFile.SpecFileOK(cdrfile)
+
+// ---- charging operations (C09 C10 C11 C12) -------------------------------------------------------
+
+// specUe: the subscriber context a request names
+func specUe(req models.ChfConvergedChargingChargingDataRequest) *chf_context.ChfUe {
+	return chf_context.SpecUeOf(req.SubscriberIdentifier)
+}
+
+// specSameBooks: quota bookkeeping, record list and session table of the subscriber are what they were,
+// and nothing was sent to the rating and account-balance peers ("no effect")
+func specSameQuota(ue *chf_context.ChfUe, old map[int32]int64) bool {
+	return verif_forall(func(rg int32) bool { return ue.ReservedQuota[rg] == old[rg] })
+}
+
+// sessionChargingReservation (rating, account debit, reservation bookkeeping): here only its frame -
+// it touches the quota bookkeeping of the subscriber named in the request and talks to the two
+// Diameter peers, never a charging record. Its arithmetic is the subject of the bounded contract below.
+//@ func sessionChargingReservation [C01 C06 C09]
+//@   trusted
+//@   requires verif_held(&specUe(chargingData).CULock)
+//@   modifies mapof(specUe(chargingData).ReservedQuota), mapof(specUe(chargingData).UnitCost), mapof(specUe(chargingData).AcctRequestNum), mapof(specUe(chargingData).RatingType), field(specUe(chargingData), RatingGroups)
+//@   modifies global(&abmf.GhostRequests), global(&rating.GhostRequests)
+
+// Release: 204 (nil) on success; a request naming an unknown subscriber or session is answered 4xx and
+// has no effect (no reservation change, no record change, nothing sent to the peers); the usage goes to
+// the record the session reference designates, which is closed with cause "normal release"; the
+// subscriber lock is free again on every path (lock obligation).
+//@ func (*Processor).ChargingDataRelease [C09 C10 C11 C12]
+//@   entry
+//@   ensures result != nil ==> result.Status >= 400 && result.Status < 500
+//@   ensures old(specUe(chargingData).Cdr[chargingSessionId]) == nil ==> result != nil
+//@   ensures [C12] old(specUe(chargingData).Cdr[chargingSessionId]) == nil ==> abmf.GhostRequests == old(abmf.GhostRequests) && rating.GhostRequests == old(rating.GhostRequests) && len(specUe(chargingData).Records) == old(len(specUe(chargingData).Records))
+//@   ensures [C12] old(specUe(chargingData).Cdr[chargingSessionId]) == nil ==> forall rg int32 :: specUe(chargingData).ReservedQuota[rg] == old(specUe(chargingData).ReservedQuota[rg])
+//@   ensures [C12] old(specUe(chargingData).Cdr[chargingSessionId]) == nil ==> forall k string :: specUe(chargingData).Cdr[k] == old(specUe(chargingData).Cdr[k])
+//@   ensures [C02 C10] result == nil ==> old(specUe(chargingData).Cdr[chargingSessionId]) != nil && old(specUe(chargingData).Cdr[chargingSessionId]).ChargingFunctionRecord.CauseForRecClosing.Value == 0
+//@   ensures [C02 C10] result == nil ==> len(old(specUe(chargingData).Cdr[chargingSessionId]).ChargingFunctionRecord.ListOfMultipleUnitUsage) == old(len(specUe(chargingData).Cdr[chargingSessionId].ChargingFunctionRecord.ListOfMultipleUnitUsage))+len(chargingData.MultipleUnitUsage)
